@@ -213,6 +213,73 @@ pub fn gen_function(r: &mut Rng) -> FunctionBehavior {
     FunctionBehavior { arguments, method: r.chance(1, 4), must_use: r.chance(1, 3) }
 }
 
+/// Constant pool shared by `gen_argtype_full` and the call generator of C05.
+pub const CONSTANT_POOL: [&str; 9] = ["count", "step", "a b", "", "x\"y", "\\n", "[count]", "10", "x'y"];
+
+/// Every declared type, constant lists drawn from `CONSTANT_POOL`.
+pub fn gen_argtype_full(r: &mut Rng) -> ArgumentType {
+    match r.below(12) {
+        0 => ArgumentType::Any,
+        1 => ArgumentType::Bool,
+        2 | 3 => ArgumentType::Constant((0..1 + r.below(3)).map(|_| (*r.pick(&CONSTANT_POOL)).to_owned()).collect()),
+        4 => ArgumentType::Display((*r.pick(&["Instance", "Foo"])).to_owned()),
+        5 => ArgumentType::Function,
+        6 => ArgumentType::Nil,
+        7 => ArgumentType::Number,
+        8 => ArgumentType::String,
+        9 => ArgumentType::Table,
+        10 if r.chance(1, 3) => ArgumentType::Vararg, // `...` in the middle: "incorrect" per the docs, accepted by the code
+        _ => ArgumentType::Number,
+    }
+}
+
+pub fn gen_required_full(r: &mut Rng) -> Required {
+    match r.below(5) {
+        0 | 1 => Required::NotRequired,
+        2 => Required::Required(Some((*r.pick(&["needs this", "why"])).to_owned())),
+        _ => Required::Required(None),
+    }
+}
+
+/// Functions with every mix of required / optional / vararg (required, required with a message,
+/// optional) / constant-list / display parameters, in any order (used by C05; `gen_function` is
+/// kept as it is so that the streams of the other groups do not move).
+pub fn gen_function_full(r: &mut Rng) -> FunctionBehavior {
+    let n = r.below(5);
+    let mut arguments = Vec::new();
+    // half of the functions have the conventional shape (required first, optional after)
+    let conventional = r.chance(1, 2);
+    let optional_from = r.below(n + 1);
+    for i in 0..n {
+        let required = if conventional {
+            if i >= optional_from {
+                Required::NotRequired
+            } else if r.chance(1, 5) {
+                Required::Required(Some("needs this".to_owned()))
+            } else {
+                Required::Required(None)
+            }
+        } else {
+            gen_required_full(r)
+        };
+        arguments.push(Argument {
+            required,
+            argument_type: gen_argtype_full(r),
+            observes: Observes::ReadWrite,
+            deprecated: None,
+        });
+    }
+    if r.chance(2, 5) {
+        arguments.push(Argument {
+            required: gen_required_full(r),
+            argument_type: ArgumentType::Vararg,
+            observes: Observes::ReadWrite,
+            deprecated: None,
+        });
+    }
+    FunctionBehavior { arguments, method: r.chance(1, 3), must_use: false }
+}
+
 impl LibGen {
     pub fn gen_kind(&self, r: &mut Rng, structs_ok: bool) -> FieldKind {
         match r.below(12) {
